@@ -106,6 +106,41 @@ def repo_clean():
     return [l for l in out.splitlines() if l.strip() and not l.endswith(" testcpu")]
 
 
+def run_scratch(ids, checks=None):
+    """Like run(), but the patch is applied to a scratch worktree and the checks build from it (VERIF_REPO);
+    for interim testing while something else needs /repo untouched.  Results are printed, not recorded."""
+    wt = "/tmp/seeded-run-wt"
+    head = sh(["git", "-C", REPO, "rev-parse", "HEAD"])[1].strip()
+    for i in ids:
+        d = os.path.join(SEEDED, i)
+        meta = json.load(open(os.path.join(d, "meta.json")))
+        props = checks or meta.get("checks_to_run") or [meta["property"]]
+        sh(["git", "-C", REPO, "worktree", "remove", "--force", wt])
+        shutil.rmtree(wt, ignore_errors=True)
+        sh(["git", "-C", REPO, "worktree", "add", "--detach", wt, head])
+        try:
+            rc, out = sh(["git", "apply", os.path.join(d, "patch.diff")], cwd=wt)
+            if rc != 0:
+                print(i, "patch does not apply:", out[-300:])
+                continue
+            env = dict(os.environ, VERIF_REPO=wt)
+            for p in props:
+                rc, out = sh([os.path.join(VERIF, "check"), p, "quick"], cwd=VERIF, timeout=3600, env=env)
+                viol = [l for l in out.splitlines() if l.startswith("VIOLATION")]
+                detail = [l for l in out.splitlines() if l.startswith("violation:")]
+                herr = [l for l in out.splitlines() if l.startswith("HARNESS-ERROR")]
+                for v in viol:
+                    path = v.split("replay=")[1].strip()
+                    if os.path.exists(path):
+                        os.unlink(path)
+                print(i, p, "exit", rc, "CAUGHT" if (rc == 1 and viol) else "missed", (detail[:1] or herr[:1] or [""])[0][:200], "[scratch]")
+        finally:
+            sh(["git", "-C", REPO, "worktree", "remove", "--force", wt])
+            shutil.rmtree(wt, ignore_errors=True)
+    # the evidence files were rewritten from the scratch tree: restore the committed ones
+    sh(["git", "-C", VERIF, "checkout", "--", "evidence"])
+
+
 def run(ids, checks=None):
     if repo_clean():
         print("refusing: /repo has local changes:", repo_clean())
@@ -207,6 +242,18 @@ if __name__ == "__main__":
                 ids.append(a[k])
                 k += 1
         run(ids, checks)
+    elif a[0] == "scratch":
+        checks = None
+        ids = []
+        k = 1
+        while k < len(a):
+            if a[k] == "--checks":
+                checks = a[k + 1].split(",")
+                k += 2
+            else:
+                ids.append(a[k])
+                k += 1
+        run_scratch(ids, checks)
     elif a[0] == "runall":
         for d in sorted(glob.glob(os.path.join(SEEDED, "*"))):
             if os.path.exists(os.path.join(d, "meta.json")):
